@@ -1,5 +1,5 @@
 From Coq Require Import List String.
-From Verif Require Import Base Dispatch DispatchHooks DispatchAllowlist.
+From Verif Require Import Base Dispatch DispatchHooks DispatchAllowlist DispatchMLNest.
 Import ListNotations.
 Open Scope string_scope.
 
@@ -14,7 +14,11 @@ Definition handle (s : sexp) : string :=
       | None =>
       match handle_allow cmd args with
       | Some r => r
+      | None =>
+      match handle_mlnest cmd args with
+      | Some r => r
       | None => "!unknown-or-malformed " ++ cmd
+      end
       end
       end
       end
